@@ -22,10 +22,25 @@ static long offset_now(void)
     return v;
 }
 
+/* VERIF_CLOCK_DELAY_US: reading the wall clock takes that much longer (a slow clock source) */
+static void slow_clock(void)
+{
+    static long us = -1;
+    if (us < 0) {
+        const char *p = getenv("VERIF_CLOCK_DELAY_US");
+        us = p ? atol(p) : 0;
+    }
+    if (us > 0) {
+        struct timespec d = { us / 1000000, (us % 1000000) * 1000L };
+        nanosleep(&d, 0);
+    }
+}
+
 int clock_gettime(clockid_t id, struct timespec *ts)
 {
     static int (*real)(clockid_t, struct timespec *);
     if (!real) real = dlsym(RTLD_NEXT, "clock_gettime");
+    if (id == CLOCK_REALTIME || id == CLOCK_REALTIME_COARSE) slow_clock();
     int r = real(id, ts);
     if (r == 0 && (id == CLOCK_REALTIME || id == CLOCK_REALTIME_COARSE)) ts->tv_sec += offset_now();
     return r;
